@@ -443,18 +443,23 @@ class Run:
         (EVIDENCE / f'{self.prop}.json').write_text(json.dumps(ev, indent=1, default=str))
 
 
-def cli(prop: str, body: Callable[[Run], int]) -> None:
-    """common entry point:  python -m harness.cXX --tier quick|thorough [--replay file]"""
+def cli(prop: str, body: Callable[[Run], int], translate: Optional[Callable[[Run], Any]] = None) -> None:
+    """common entry point:  harness/cXX.py --tier quick|thorough [--replay file] [--translate-only]"""
     import argparse
     ap = argparse.ArgumentParser()
-    ap.add_argument('--tier', default=os.environ.get('VERIF_TIER', 'quick'), choices=['quick', 'thorough'])
+    ap.add_argument('--tier', default=os.environ.get('VERIF_TIER') or 'quick', choices=['quick', 'thorough'])
     ap.add_argument('--replay')
+    ap.add_argument('--translate-only', action='store_true')
     args = ap.parse_args()
     seed = int(os.environ.get('VERIF_SEED', '0') or 0)
     run = Run(prop, args.tier, seed)
     run.replay = args.replay
     try:
         use_repo()
+        if args.translate_only:
+            if translate is not None:
+                translate(run)
+            sys.exit(0)
         rc = body(run)
     except subprocess.TimeoutExpired as e:
         print(f'TIMEOUT in {prop}: {e}', file=sys.stderr)
